@@ -4,6 +4,7 @@
 use crate::runner::{Meta, Session};
 
 pub mod builder;
+pub mod chainmisc;
 pub mod envelope;
 pub mod inscriptions;
 pub mod pure_ordinals;
@@ -28,6 +29,8 @@ pub fn dispatch(id: &str) -> Option<fn(&mut Session) -> Meta> {
     "C10" => runes::c10,
     "C11" => runes::c11,
     "C12" => sats::c12,
+    "C15" => chainmisc::c15,
+    "C16" => chainmisc::c16,
     "C17" => sats::c17,
     "C20" => builder::c20,
     "C25" => runestone::c25,
@@ -42,6 +45,7 @@ pub fn dispatch(id: &str) -> Option<fn(&mut Session) -> Meta> {
     "C34" => text::c34,
     "C35" => storage::c35,
     "C36" => settings::c36,
+    "C37" => chainmisc::c37,
     _ => return None,
   })
 }
